@@ -222,12 +222,18 @@ func (s *stScen) apply(op string) {
 		s.NUns++
 		s.pid++
 		s.notePublishes(n, s.do(n, ref.Packet{Type: ref.UNSUBSCRIBE, PacketID: s.pid, Filters: []ref.Filter{{Filter: filter}}}))
-	case "pub": // pub|topic|retain|e  (e: 0 = no expiry, e = message expiry 30, clr = empty payload)
+	case "pub": // pub|topic|retain|e[|s]  (e: 0 = no expiry, e = message expiry 30, clr = empty payload;
+		// s: the SAME payload "s" on every such publish, content type and user property numbered per
+		// publish instead, so that two publications differ in their properties and expiry only)
 		s.Pubs++
 		s.pid++
-		p := ref.Packet{Type: ref.PUBLISH, Topic: f[1], Qos: 1, PacketID: s.pid, Retain: f[2] == "1", Payload: []byte(fmt.Sprintf("m%d", s.Pubs))}
-		p.Props = ref.Props{{ID: ref.PPayloadFormat, Num: 1}, {ID: ref.PContentType, Str: "ct"}, {ID: ref.PResponseTopic, Str: "rt"},
-			{ID: ref.PCorrelationData, Data: []byte("cd")}, {ID: ref.PUser, Str: "k", Val: "v"}}
+		payload, ct, uv := fmt.Sprintf("m%d", s.Pubs), "ct", "v"
+		if len(f) > 4 && f[4] == "s" {
+			payload, ct, uv = "s", fmt.Sprintf("ct%d", s.Pubs), fmt.Sprintf("v%d", s.Pubs)
+		}
+		p := ref.Packet{Type: ref.PUBLISH, Topic: f[1], Qos: 1, PacketID: s.pid, Retain: f[2] == "1", Payload: []byte(payload)}
+		p.Props = ref.Props{{ID: ref.PPayloadFormat, Num: 1}, {ID: ref.PContentType, Str: ct}, {ID: ref.PResponseTopic, Str: "rt"},
+			{ID: ref.PCorrelationData, Data: []byte("cd")}, {ID: ref.PUser, Str: "k", Val: uv}}
 		switch f[3] {
 		case "e":
 			p.Props = append(ref.Props{{ID: ref.PPayloadFormat, Num: 1}, {ID: ref.PMessageExpiry, Num: stMsgExpiry}}, p.Props[1:]...)
